@@ -762,7 +762,7 @@ def run(R, pid, case):
     out = json.loads(lines[-1])
     R.tr(out["tr"])
     R.stat("history_forked_processes", out["forks"])
-    R.stat("histories", out["histories"])
+    R.stat("call_histories", out["histories"])
     R.stat("history_reference_is_exception", out["ref_exc"])
     R.stat("history_calls", out["calls"])
     for o in out["obs"]:
